@@ -1740,6 +1740,9 @@ def r12(ctx):
 
 
 def run(ctx):
+    r16(ctx)
+    r15(ctx)
+    r14(ctx)
     r13(ctx)
     r12(ctx)
     r11(ctx)
@@ -1833,25 +1836,43 @@ def r13(ctx):
     ctx.floor("C01.R13", "hint lists of the name classifier", len(hint_lists), 2)
     # the reader's text-decoding returns and the conditions on the two predicates that guard them
     rf = None
-    for f in [g for gl in repo.funcs.values() for g in gl]:
-        if f.module.rel == DES and any(isinstance(n, ast.Attribute) and n.attr == "probably_text" for n in walk(f.node)):
-            rf = f
+    cands = [f for gl in repo.funcs.values() for f in gl
+             if f.module.rel.startswith("hippolyzer/lib/base/message/")
+             and any(isinstance(n, ast.Attribute) and n.attr == "probably_text" for n in walk(f.node))
+             and any(isinstance(r, ast.Return) and r.value is not None and
+                     any(isinstance(c, ast.Call) and isinstance(c.func, ast.Attribute) and c.func.attr == "decode" for c in ast.walk(r.value))
+                     for r in walk(f.node))]
+    rf = cands[0] if len(cands) == 1 else next((f for f in cands if f.module.rel == DES), None)
     ctx.require(rf is not None, "C01.R13: no reader function consults probably_text")
     text_rets = [r for r in walk(rf.node) if isinstance(r, ast.Return) and r.value is not None and
                  any(isinstance(c, ast.Call) and isinstance(c.func, ast.Attribute) and c.func.attr == "decode" for c in ast.walk(r.value))]
     ctx.floor("C01.R13", "text-decoding returns in the reader", len(text_rets), 1)
 
+    # once-assigned locals that hold a predicate (is_blob = var.probably_binary) stand for it in the guards
+    pred_locals = {}
+    for st_ in stores(rf.node, into_defs=False):
+        if st_.kind == "assign" and "." not in st_.path and st_.value is not None and \
+                any(isinstance(n, ast.Attribute) and n.attr in getters for n in ast.walk(st_.value)):
+            pred_locals.setdefault(st_.path, []).append(st_.value)
+    pred_locals = {k: v[0] for k, v in pred_locals.items() if len(v) == 1}
+
     def text_decoded(pb, pt):
         for r in text_rets:
             possible = True
             for c in conditions(r, rf.node):
-                attrs = {n.attr for n in ast.walk(c.test) if isinstance(n, ast.Attribute) and n.attr in getters}
+                exprs = [c.test] + [pred_locals[n.id] for n in ast.walk(c.test) if isinstance(n, ast.Name) and n.id in pred_locals]
+                attrs = {n.attr for e_ in exprs for n in ast.walk(e_) if isinstance(n, ast.Attribute) and n.attr in getters}
                 if not attrs:
                     continue
                 env = {}
-                for n in ast.walk(c.test):
-                    if isinstance(n, ast.Attribute) and n.attr in getters and ap(n):
-                        env[ap(n)] = pb if n.attr == "probably_binary" else pt
+                for e_ in exprs:
+                    for n in ast.walk(e_):
+                        if isinstance(n, ast.Attribute) and n.attr in getters and ap(n):
+                            env[ap(n)] = pb if n.attr == "probably_binary" else pt
+                for nm, vexpr in pred_locals.items():
+                    lv = ConstEval(repo, rf.module).ev(vexpr, env)
+                    if not isinstance(lv, (Sym, CallVal)):
+                        env[nm] = lv
                 val = ConstEval(repo, rf.module).ev(c.test, env)
                 if isinstance(val, (Sym, CallVal)):
                     continue
@@ -1874,3 +1895,115 @@ def r13(ctx):
                f"text={cl['probably_text']} and reaches the reader's text-decoding return: a blob that happens to be "
                f"NUL-terminated UTF-8 comes back as a str without its last byte")
     ctx.floor("C01.R13", "ambiguously named variables", n_amb, 3)
+
+
+def r14(ctx):
+    """The writer finds a template by name (message_templates), the reader by (frequency, number) (message_dict).
+    Both indexes are filled by TemplateDictionary.build_dictionaries from one template list: a template that is
+    entered into one of them only can be encoded but not decoded (or the other way round)."""
+    repo = ctx.repo
+    ctx.rule("C01.R14", "the by-name index (writer) and the by-number index (reader) of TemplateDictionary are filled for the same "
+                        "templates: both stores happen under the same conditions over the same template list")
+    bd = repo.fn("TemplateDictionary.build_dictionaries")
+    fns = class_methods_reachable(repo, bd, depth=2)
+    sites = {}
+    for f in fns:
+        for st in stores(f.node, into_defs=False):
+            tail = st.path.split(".")[-1]
+            if tail in ("message_templates", "message_dict") and st.kind in ("setitem", "assign", "mutcall"):
+                if st.kind == "assign" and not isinstance(st.value, ast.DictComp):
+                    continue          # `self.message_dict = {}` initialisation
+                if st.kind == "mutcall" and st.method not in ("update", "setdefault"):
+                    continue
+                sites.setdefault(tail, []).append((f, st))
+    ctx.require(set(sites) == {"message_templates", "message_dict"},
+                f"C01.R14: build_dictionaries (and its helpers) no longer fill both indexes ({sorted(sites)})")
+
+    def shape(f, st):
+        """(iterable, frozenset of (test, polarity)) under which the store runs"""
+        if st.kind == "assign" and isinstance(st.value, ast.DictComp):
+            gens = st.value.generators
+            its = tuple(norm(g.iter) for g in gens)
+            conds = frozenset((norm(i), True) for g in gens for i in g.ifs)
+            return its, conds
+        loops = [a for a in _anc(st.node) if isinstance(a, (ast.For, ast.While))]
+        its = tuple(norm(l.iter) if isinstance(l, ast.For) else norm(l.test) for l in loops)
+        conds = frozenset((norm(c.test), c.polarity) for c in conditions(st.node, f.node) if c.kind != "while")
+        return its, conds
+    shapes = {k: {shape(f, st) for f, st in v} for k, v in sites.items()}
+    a, b = shapes["message_templates"], shapes["message_dict"]
+    only_a = {c for _, cs in a for c in cs} - {c for _, cs in b for c in cs}
+    only_b = {c for _, cs in b for c in cs} - {c for _, cs in a for c in cs}
+    f0, st0 = sites["message_dict"][0]
+    ctx.ob("C01.R14", "build_dictionaries: message_templates[...] and message_dict[...] are stored for the same templates",
+           not only_a and not only_b and {i for i, _ in a} == {i for i, _ in b}, ctx.w(f0, st0.node),
+           f"by-name store runs over {sorted(i for i, _ in a)} under {sorted(only_a) or 'no extra condition'}; by-number store "
+           f"over {sorted(i for i, _ in b)} under {sorted(only_b) or 'no extra condition'}: a template in one index only "
+           f"encodes but cannot be decoded (or vice versa)")
+
+
+def r15(ctx):
+    """A lazily decoded message still has its body: Message.ensure_parsed parses whenever a raw body is present.  The
+    message refers to the deserializer that read its header only weakly; making the parse depend on that referent being
+    alive silently turns `decode(encode(m))` into a message without blocks (D42)."""
+    repo = ctx.repo
+    ctx.rule("C01.R15", "a deferred message is parsed whenever it still has a raw body: in Message.ensure_parsed the hand-over to "
+                        "parse_message_body depends on nothing but the presence of the raw body")
+    f = repo.fn("Message.ensure_parsed")
+    pcs = [c for g in class_methods_reachable(repo, f, depth=1) for c in calls(g.node)
+           if isinstance(c.func, ast.Attribute) and c.func.attr == "parse_message_body"]
+    ctx.require(len(pcs) >= 1, "C01.R15: Message.ensure_parsed no longer hands the message to parse_message_body")
+    for c in pcs:
+        g = next(g for g in class_methods_reachable(repo, f, depth=1) if any(x is c for x in ast.walk(g.node)))
+        extra = []
+        for cond in conditions(c, g.node):
+            for a_, pol in atoms(cond.test, cond.polarity):
+                if (ap(a_) or "").endswith("raw_body"):
+                    continue
+                extra.append(f"{norm(a_)} is {pol}")
+        ctx.ob("C01.R15", "ensure_parsed: parse_message_body is reached whenever the raw body is present", not extra,
+               ctx.w(g, c), f"the parse also requires {extra}: when that fails the message silently keeps empty blocks although its "
+               f"body was never parsed (the deserializer reference is weak)")
+
+
+def r16(ctx):
+    """Three-component quaternion forms drop W; every reader recomputes it as a non-negative number
+    (Quaternion.__init__).  The writer must therefore hand out the components of the representative with W >= 0:
+    Quaternion.data(3) negates X, Y, Z when W is negative, and the tuple-coord packers ask the value for the components
+    they need (data(needed_elems)) instead of slicing the full tuple, which would bypass that (D45)."""
+    repo = ctx.repo
+    ctx.rule("C01.R16", "quaternions packed without W keep their rotation: Quaternion.data(3) flips the sign of X, Y, Z when W is "
+                        "negative, and the tuple-coord packers narrow through data(needed_elems)")
+    qc = repo.cls("Quaternion", "hippolyzer/lib/base/datatypes.py")
+    df = repo.lookup_method(qc, "data")
+    ctx.require(df is not None, "C01.R16: Quaternion.data vanished")
+    flips = []
+    for r in walk(df.node):
+        if isinstance(r, ast.Return) and isinstance(r.value, ast.Tuple) and len(r.value.elts) == 3 and \
+                all(isinstance(e, ast.UnaryOp) and isinstance(e.op, ast.USub) for e in r.value.elts):
+            conds = conditions(r, df.node)
+            on_w = any(isinstance(a_, ast.Compare) and (ap(a_.left) or "").endswith(".W") and len(a_.ops) == 1 and
+                       isinstance(a_.ops[0], (ast.Lt, ast.LtE)) == pol and isinstance(a_.ops[0], (ast.Lt, ast.LtE, ast.Gt, ast.GtE))
+                       for c in conds for a_, pol in atoms(c.test, c.polarity))
+            if on_w:
+                flips.append(r)
+    ctx.ob("C01.R16", "Quaternion.data(3) returns the negated components when W is negative", bool(flips), df.where,
+           "the three-component form keeps X, Y, Z as they are whatever the sign of W; the reader recomputes W >= 0, so a "
+           "quaternion with negative W comes back as a different rotation")
+    for fname in ("_make_tuplecoord_spec", "_make_llsd_tuplecoord_spec"):
+        cands = [g for g in repo.funcs.get(fname, []) if g.module.rel == PACK]
+        if not cands:
+            continue
+        f = cands[0]
+        all_calls = [c for c in ast.walk(f.node) if isinstance(c, ast.Call)]
+        narrowed = [c for c in all_calls if isinstance(c.func, ast.Attribute) and c.func.attr == "data"]
+        helper = [c for c in all_calls if isinstance(c.func, ast.Name) and any(
+            isinstance(x, ast.Call) and isinstance(x.func, ast.Attribute) and x.func.attr == "data"
+            for g in repo.funcs.get(c.func.id, []) if g.module is f.module for x in walk(g.node))]
+        if helper:
+            g = [g for g in repo.funcs.get(helper[0].func.id, []) if g.module is f.module][0]
+            narrowed = [c for c in ast.walk(g.node) if isinstance(c, ast.Call) and isinstance(c.func, ast.Attribute) and c.func.attr == "data"]
+        ok = bool(narrowed) and all(c.args or c.keywords for c in narrowed)
+        ctx.ob("C01.R16", f"{fname}: a TupleCoord value is narrowed through data(<needed components>)", ok, f.where,
+               "the packer takes the full component tuple (`.data()`) and slices it: the sign normalisation of the "
+               "three-component form is bypassed")
